@@ -7,10 +7,12 @@ is executed.  A corpus failure means the *machinery* is broken -> ANALYSIS-ERROR
 """
 from __future__ import annotations
 
+import glob
 import importlib
 import json
 import os
 import shutil
+import subprocess
 import tempfile
 from concurrent.futures import ProcessPoolExecutor
 from typing import Any, Dict, List, Optional
@@ -27,10 +29,46 @@ def load_corpus(prop: str) -> Dict[str, List[Dict[str, Any]]]:
     return {"fire": list(getattr(mod, "MUST_FIRE", [])), "silent": list(getattr(mod, "SILENT", []))}
 
 
+VERIF_DIR = os.path.dirname(os.path.dirname(os.path.abspath(__file__)))
+
+
+def load_stored(prop: str) -> Dict[str, List[Dict[str, Any]]]:
+    """Sub-agent material kept under /verif: seeded defects of this property (must fire) and behaviour-preserving refactorings of any
+    anchor (must stay silent for this property; the few that the rules cannot read are recorded per property as 'undecided')."""
+    fire, silent = [], []
+    for d in sorted(glob.glob(os.path.join(VERIF_DIR, "seeded", f"{prop}-m*"))):
+        patch = os.path.join(d, "patch.diff")
+        if not os.path.exists(patch):
+            continue
+        meta = {}
+        try:
+            meta = json.load(open(os.path.join(d, "meta.json")))
+        except Exception:
+            pass
+        fire.append(dict(id="seed:" + os.path.basename(d), patch=patch, rule=None, accept_error=prop in (meta.get("analysis_errors") or {}) and prop not in (meta.get("detected_by") or {})))
+    for d in sorted(glob.glob(os.path.join(VERIF_DIR, "refactors", "C*-r*"))):
+        patch = os.path.join(d, "patch.diff")
+        if not os.path.exists(patch):
+            continue
+        meta = {}
+        try:
+            meta = json.load(open(os.path.join(d, "meta.json")))
+        except Exception:
+            pass
+        silent.append(dict(id="refactor:" + os.path.basename(d), patch=patch, accept_error=prop in (meta.get("analysis_errors") or {})))
+    return {"fire": fire, "silent": silent}
+
+
 def apply_variant(src_root: str, variant: Dict[str, Any], dst_root: str) -> Optional[str]:
     """Copy the package and apply the edit(s).  Returns an error string or None."""
     shutil.copytree(os.path.join(src_root, PKG), os.path.join(dst_root, PKG),
                     ignore=shutil.ignore_patterns("__pycache__", "*.pyc"))
+    if variant.get("patch"):
+        # a stored unified diff against the repository root (paths a/src/qce_circuit/...)
+        r = subprocess.run(["git", "apply", "-p2", variant["patch"]], cwd=dst_root, capture_output=True, text=True)
+        if r.returncode:
+            return "stored patch does not apply to the current tree: " + r.stderr.strip()[:160]
+        return None
     edits = variant.get("edits") or [dict(file=variant["file"], old=variant["old"], new=variant["new"], nth=variant.get("nth"), all=variant.get("all"))]
     for ed in edits:
         path = os.path.join(dst_root, PKG, ed["file"])
@@ -66,7 +104,9 @@ def _run_one(job) -> Dict[str, Any]:
     try:
         err = apply_variant(src_root, variant, tmp)
         if err:
-            return dict(id=variant["id"], prop=prop, kind=kind, ok=False, why=f"corpus entry unusable: {err}")
+            # the corpus is written against the pinned tree; on a tree where an anchor text moved the entry is skipped (the check of the
+            # tree itself has already run) -- it is counted, never turned into a verdict
+            return dict(id=variant["id"], prop=prop, kind=kind, ok=True, skipped=True, rules=[], why=f"not applicable to this tree: {err}")
         code, rep, errtxt = run_check(prop, "quick", tmp, write=False, quiet=True)
         rules = sorted({v["rule"] for v in (getattr(rep, "new_violations", []) or [])}) if rep else []
         if kind == "fire":
@@ -79,6 +119,8 @@ def _run_one(job) -> Dict[str, Any]:
                         why=f"expected a violation of {want or 'any rule'}, got exit {code} rules={rules} {errtxt or ''}")
         if code == 0:
             return dict(id=variant["id"], prop=prop, kind=kind, ok=True, rules=[])
+        if code == 2 and variant.get("accept_error"):
+            return dict(id=variant["id"], prop=prop, kind=kind, ok=True, rules=["UNDECIDED"])
         first = ""
         if rep is not None and getattr(rep, "new_violations", None):
             v = rep.new_violations[0]
@@ -91,7 +133,7 @@ def _run_one(job) -> Dict[str, Any]:
         shutil.rmtree(tmp, ignore_errors=True)
 
 
-def run(props: List[str], jobs: int = 16, src_root: Optional[str] = None, verbose: bool = False) -> Dict[str, Any]:
+def run(props: List[str], jobs: int = 16, src_root: Optional[str] = None, verbose: bool = False, stored: bool = True) -> Dict[str, Any]:
     src_root = src_root or default_src_root()
     work = []
     for p in props:
@@ -100,6 +142,12 @@ def run(props: List[str], jobs: int = 16, src_root: Optional[str] = None, verbos
             work.append((p, "fire", v, src_root))
         for v in corpus["silent"]:
             work.append((p, "silent", v, src_root))
+        if stored:
+            st = load_stored(p)
+            for v in st["fire"]:
+                work.append((p, "fire", v, src_root))
+            for v in st["silent"]:
+                work.append((p, "silent", v, src_root))
     results: List[Dict[str, Any]] = []
     if work:
         with ProcessPoolExecutor(max_workers=max(1, min(jobs, len(work)))) as ex:
@@ -111,8 +159,10 @@ def run(props: List[str], jobs: int = 16, src_root: Optional[str] = None, verbos
     fire = [r for r in results if r["kind"] == "fire"]
     silent = [r for r in results if r["kind"] == "silent"]
     return dict(
-        must_fire=len(fire), must_fire_ok=sum(1 for r in fire if r["ok"]),
-        silent=len(silent), silent_ok=sum(1 for r in silent if r["ok"]),
+        must_fire=len(fire), must_fire_ok=sum(1 for r in fire if r["ok"] and not r.get("skipped")),
+        silent=len(silent), silent_ok=sum(1 for r in silent if r["ok"] and not r.get("skipped")),
+        skipped=sum(1 for r in results if r.get("skipped")),
+        undecided=[f"{r['prop']} {r['id']}" for r in results if r.get("rules") in (["UNDECIDED"], ["ANALYSIS-ERROR"])],
         failed=[f"{r['prop']} {r['kind']} {r['id']}: {r.get('why')}" for r in results if not r["ok"]],
         details=results,
     )
@@ -125,8 +175,10 @@ def annotate_evidence(prop: str, st: Dict[str, Any]):
     ev["coverage"]["selftest"] = dict(
         must_fire=st["must_fire"], must_fire_reported=st["must_fire_ok"],
         behaviour_preserving=st["silent"], behaviour_preserving_silent=st["silent_ok"],
-        variants=[dict(id=r["id"], kind=r["kind"], rules=r.get("rules", [])) for r in st["details"]],
-        note="variants are text edits of a scratch copy, compile()-checked, analysed statically, never executed",
+        not_applicable_to_this_tree=st.get("skipped", 0), undecided=st.get("undecided", []),
+        variants=[dict(id=r["id"], kind=r["kind"], rules=r.get("rules", []), **({"skipped": True} if r.get("skipped") else {})) for r in st["details"]],
+        note="variants are text edits / stored diffs applied to a scratch copy, analysed statically, never executed; 'seed:' = sub-agent defect of this property, "
+             "'refactor:' = sub-agent behaviour-preserving rewrite (must stay silent)",
     )
     with open(path, "w") as fh:
         json.dump(ev, fh, indent=1, default=str)
